@@ -248,12 +248,23 @@ class PythonASTOptimizer(ast.NodeTransformer):
         """Eliminate dead code from except try bodies."""
         new_node = self.generic_visit(node)
         assert isinstance(new_node, ast.Try)
+
+        new_body = _filter_dead_code(new_node.body)
+        new_orelse = _filter_dead_code(new_node.orelse)
+        new_finalbody = _filter_dead_code(new_node.finalbody)
+
+        # A `finally` clause consisting only of no-op expressions will have been emptied
+        # out above. Python does not permit a `try` statement without either handlers or
+        # a `finally` clause, but such a statement is equivalent to its body.
+        if not new_node.handlers and not new_finalbody:
+            return [*new_body, *new_orelse]  # type: ignore[return-value]
+
         return ast.copy_location(
             ast.Try(
-                body=_filter_dead_code(new_node.body),
+                body=new_body,
                 handlers=new_node.handlers,
-                orelse=_filter_dead_code(new_node.orelse),
-                finalbody=_filter_dead_code(new_node.finalbody),
+                orelse=new_orelse,
+                finalbody=new_finalbody,
             ),
             new_node,
         )
